@@ -78,6 +78,12 @@ fn main() {
                 }
             });
         }
+        "scc" => {
+            let max_n = args.num("max-n", 3) as usize;
+            let inst = args.num("instances", 3) as usize;
+            let random = args.num("random", 40) / nshards / 2 + 1;
+            for_flavours!("directed", F, { scc::run::<F>(&mut rep, max_n, inst, random, shard, nshards, &mut rng) });
+        }
         "replay" => {
             let path = args.str("file", "");
             let txt = std::fs::read_to_string(&path).expect("cannot read replay file");
@@ -91,6 +97,9 @@ fn main() {
                 }
                 "search" | "cmp" => {
                     for_flavours!(fl.as_str(), F, { reproduced |= search::replay::<F>(r) });
+                }
+                "scc" => {
+                    for_flavours!(fl.as_str(), F, { reproduced |= scc::replay::<F>(r) });
                 }
                 k => println!("replay kind {} not supported by this binary", k),
             }
